@@ -47,11 +47,12 @@ func keyComponents(p *Prog, keyType *types.Named) ([]string, string) {
 		}
 	}
 	t := o.Of(rets[0].Results[0])
-	if t.Op != "slicelit" {
+	elems, okFlat := sliceLiteralElements(t)
+	if !okFlat {
 		return nil, "ByteSlices does not return a slice literal: " + t.String()
 	}
 	var out []string
-	for _, e := range t.Args {
+	for _, e := range elems {
 		var fields []string
 		e.Walk(func(x *Term) {
 			if x.Op == "field" && len(x.Args) == 1 && x.Args[0].Op == "param" {
@@ -281,4 +282,38 @@ func aolListings(p *Prog, r *Report, m *aolModel, clause string) {
 	}
 	r.Floor("aol-listing-queries", nList, 2)
 	r.Floor("aol-single-item-views", nSingle, 3)
+}
+
+
+// sliceLiteralElements: the elements of a list written as a literal, or built by appending literal elements one by one to an
+// empty list (make(T, 0[, n]), nil, or a zero array re-sliced to length 0).
+func sliceLiteralElements(t *Term) ([]*Term, bool) {
+	var elems []*Term
+	var flatten func(x *Term) bool
+	flatten = func(x *Term) bool {
+		switch {
+		case x == nil:
+			return false
+		case x.Op == "slicelit":
+			elems = append(elems, x.Args...)
+			return true
+		case x.IsCall("builtin:append") && len(x.Args) == 2 && x.Args[1].Op == "slicelit":
+			if !flatten(x.Args[0]) {
+				return false
+			}
+			elems = append(elems, x.Args[1].Args...)
+			return true
+		case x.Op == "slice" && len(x.Args) > 0 && (x.Args[0].Op == "addr" || x.Args[0].Op == "zero" || x.Args[0].Op == "makeslice"):
+			return len(x.Args) >= 3 && x.Args[2].Op == "const" && x.Args[2].Name == "0"
+		case x.Op == "makeslice":
+			return len(x.Args) > 0 && x.Args[0].Op == "const" && x.Args[0].Name == "0"
+		case x.Op == "const" && x.Name == "nil":
+			return true
+		}
+		return false
+	}
+	if !flatten(t) {
+		return nil, false
+	}
+	return elems, true
 }
